@@ -467,4 +467,10 @@ def r6(F, R):
     R.floor(1)
 
 
-RULES = [("R1", r1, None), ("R2", r2, None), ("R3", r3, None), ("R4", r4, None), ("R5", r5, None), ("R6", r6, None)]
+def r7_clone(F, R):
+    """Collector handles and scenario ids are cloned into every scenario's span and writer: a clone keeps every field."""
+    n = roles.check_clone_faithful_table(F, R, r"^tracing::|^runner::basic::ScenarioId$", "clone-faithful")
+    R.floor(2)
+
+
+RULES = [("R1", r1, None), ("R2", r2, None), ("R3", r3, None), ("R4", r4, None), ("R5", r5, None), ("R6", r6, None), ("R7", r7_clone, None)]
